@@ -207,6 +207,14 @@ class Check(PropertyCheck):
                   "delivered after the child's step in the model (indistinguishable for TCPLayer, which is already `done`). "
                   "Not proved (only exercised by the tie): that no SendQuicStreamData/ResetQuicStream follows a FIN/reset on the same "
                   "(connection, stream id) - in the code this is the CAN_WRITE guard of event_to_child. "
+                  "Oracle excuses (each with a doctored counter-example in known_selftest()): AssertionError is accepted only for (a) a "
+                  "stream event on an id unknown on that side whose initiator bit belongs to the other peer (registration guard) and "
+                  "(b) QuicConnectionClosed from the server while some registered stream has no server side yet; events are allowed "
+                  "to be ignored only once a QuicConnectionClosed arrived while the other QUIC connection was already closed. "
+                  "Expected values are input-derived: the id a peer used must be the registered id; a pair once seen must persist "
+                  "unchanged in every later step (this clause catches seeds c30-1/2/3 directly); the owner of a completed hook is the "
+                  "one recorded when the hook was emitted AND is predicted by the model from the position in the pending list "
+                  "(`hookidx k`), no longer copied from the implementation. "
                   "The tie is differential, not a proof.")
     technique = "Lean 4 proof (invariant over all event interleavings of the stream-id bookkeeping, children abstract) + step-wise model-vs-code correspondence via world.py"
     rule = ("schedules over stream data / FIN / reset on bidi+uni, client- and server-initiated streams (<= 6 streams), "
@@ -290,7 +298,8 @@ class Check(PropertyCheck):
         prev_pairs = []          # table after the previous step
         ever = {}                # client id -> server id it was paired with the first time a pair was observed
         seen_c = set()           # client ids that have been registered at some point
-        closed_sides = set()     # sides whose QuicConnectionClosed has been delivered (input-derived)
+        closed_sides = set()     # QUIC connections that are closed ("1" client, "0" server)
+        layer_done = False
         for st in obs["steps"]:
             parts = st["in"].split()
             pairs = st["pairs"]
@@ -317,8 +326,11 @@ class Check(PropertyCheck):
                 seen_c.add(c)
                 if s is not None: ever.setdefault(c, s)
             # the id a peer used itself is the id the layer must register (input-derived)
-            if parts[0] == "cc": closed_sides.add(parts[1])
-            layer_done = closed_sides == {"0", "1"}      # both QUIC connections are gone: the layer ignores everything
+            # the layer is done (ignores everything) once a QuicConnectionClosed arrives while the OTHER QUIC connection is
+            # already closed - by its own QuicConnectionClosed or by a CloseConnection the datagram layer got through
+            if parts[0] == "cc":
+                if ("0" if parts[1] == "1" else "1") in closed_sides: layer_done = True
+                closed_sides.add(parts[1])
             if parts[0] in ("sd", "sr") and "X" not in st["out"] and not layer_done:
                 fc, sid = int(parts[1]), int(parts[2])
                 if fc and sid not in now: fails.append(f"{st['in']}: no layer registered under client id {sid}")
@@ -359,6 +371,9 @@ class Check(PropertyCheck):
                 if f[0] in ("D", "R", "T"):
                     ok = (f[1] == "c" and int(f[2]) in pm) or (f[1] == "s" and int(f[2]) in pm.values())
                     if not ok: fails.append(f"{o} targets an unregistered stream")
+            for o in st["out"]:
+                if o == "C:c:f": closed_sides.add("1")
+                elif o == "C:s:f": closed_sides.add("0")
             prev_pairs = pairs
         return fails
 
